@@ -307,11 +307,15 @@ def work(arg):
                            % (parser, m["label"], dt, whole.get(dt, whole.get("detail", whole["outcome"]))),
                            dict(parser=parser, message=m["label"], wire=wire, pieces=[wire], close_after=m["close"],
                                 method=m["method"], expected=m["truth"], observed=whole))
+        aborted = whole["outcome"] == "hangs"
         for cuts, pieces in split.splits(wire, k):
-            if not cuts:
+            if not cuts or aborted:
                 continue
             for gaps in idle_schedules(len(pieces)):
+                if aborted:
+                    break
                 obs, steps = execute(m, pieces, gaps)
+                aborted = obs["outcome"] == "hangs"     # reported below; further schedules of this message are skipped
                 part.states += 1
                 part.transitions += steps
                 part.traces += 1
@@ -338,7 +342,9 @@ def work(arg):
     import math
     n = len(wire)
     expect = sum(math.comb(n - 1, j) * len(idle_schedules(j + 1)) for j in range(0, k) if j <= n - 1)
-    if part.states != expect:
+    if aborted:
+        part.capped = True
+    elif part.states != expect:
         raise core.BrokenCheck("%s: explored %d schedules, closed form says %d" % (m["label"], part.states, expect))
     return part
 
